@@ -154,20 +154,29 @@ Proof.
 Qed.
 
 (** the fuel of [del_loop] is never the reason the loop stops *)
+Lemma del_loop_S fuel i c axes :
+  del_loop (S fuel) i c axes =
+  match nth_error axes i with
+  | None => axes
+  | Some ax => if char_in c ax then del_loop fuel (S i) c (remove_nth i axes)
+               else del_loop fuel (S i) c axes
+  end.
+Proof. reflexivity. Qed.
+
+Lemma remove_nth_length {A} (l : list A) : forall i, length (remove_nth i l) <= length l.
+Proof.
+  induction l as [|x l IHl]; intros [|i]; cbn [remove_nth length]; try lia.
+  specialize (IHl i). lia.
+Qed.
+
 Lemma del_loop_fuel c : forall fuel i axes,
   length axes < fuel + i -> del_loop (S fuel) i c axes = del_loop fuel i c axes.
 Proof.
   induction fuel as [|fuel IH]; intros i axes H.
-  - cbn [del_loop]. destruct (nth_error axes i) eqn:E; [|reflexivity].
+  - rewrite del_loop_S. cbn [del_loop]. destruct (nth_error axes i) eqn:E; [|reflexivity].
     assert (i < length axes) by (apply nth_error_Some; congruence). lia.
-  - change (del_loop (S (S fuel)) i c axes) with
-      (match nth_error axes i with
-       | None => axes
-       | Some ax => if char_in c ax then del_loop (S fuel) (S i) c (remove_nth i axes)
-                    else del_loop (S fuel) (S i) c axes end).
-    cbn [del_loop]. destruct (nth_error axes i) eqn:E; [|reflexivity].
-    assert (Hr : length (remove_nth i axes) <= length axes).
-    { clear. revert i. induction axes as [|x l IHl]; intros [|i]; cbn [remove_nth length]; try lia.
-      specialize (IHl i). lia. }
-    destruct (char_in c l); rewrite IH; try reflexivity; lia.
+  - rewrite (del_loop_S (S fuel) i c axes), (del_loop_S fuel i c axes).
+    destruct (nth_error axes i) as [ax|] eqn:E; [|reflexivity].
+    pose proof (remove_nth_length axes i) as Hr.
+    destruct (char_in c ax); apply IH; lia.
 Qed.
